@@ -151,6 +151,51 @@ pub fn run(ctx: &Ctx) -> Outcome {
                 let probe_blocks = &data[..2 * bs];
                 let par = par_of(cfg);
                 let long = pattern(seed, 0xC14D, ((par + 2) * bs).max(l + bs));
+                // a core used directly first, then wrapped with StreamCipherCoreWrapper::from_core and used byte-wise: the whole
+                // life must equal the reference stream
+                for d in &cfg.cores {
+                    let mut ks_n = vec![0usize, 1, par, par + 1];
+                    ks_n.sort();
+                    ks_n.dedup();
+                    for &k in &ks_n {
+                        for how in 0..3 {
+                            rep.case(|| {
+                                let tail = [1usize, bs - 1 + (bs == 1) as usize, bs + 1, (par + 1) * bs + 1];
+                                let total = k * bs + tail.iter().sum::<usize>();
+                                let msg = pattern(seed, 0xC14E, total);
+                                let want = family_ref(cfg, d.mode, Dir::Enc, &key, &iv1, &msg).0;
+                                let mut core = rec::core(cfg, d, &key, &iv1);
+                                let mut out = msg[..k * bs].to_vec();
+                                match how {
+                                    0 => {
+                                        let _ = core.apply_blocks(Kind::InPlace, &[], &mut out);
+                                    }
+                                    1 => {
+                                        for b in out.chunks_mut(bs) {
+                                            core.apply_block(Kind::InPlace, &[], b);
+                                        }
+                                    }
+                                    _ => {
+                                        let mut ks = vec![0u8; k * bs];
+                                        core.write_blocks(&mut ks);
+                                        out = rf::x(&out, &ks);
+                                    }
+                                }
+                                let mut st = core.into_stream();
+                                let mut off = k * bs;
+                                for (i, &n) in tail.iter().enumerate() {
+                                    let mut o = msg[off..off + n].to_vec();
+                                    let r = if i % 2 == 0 { st.apply(Kind::InPlace, &[], &mut o) } else { let inp = o.clone(); st.apply(Kind::B2b, &inp, &mut o) };
+                                    ensure!(r.is_ok(), format!("request_refused/{}", d.mode), "{}: byte-level request refused far from the limit", d.ty);
+                                    out.extend(o);
+                                    off += n;
+                                }
+                                ensure!(out == want, format!("core_then_stream/{}", d.mode), "{}: {} block(s) through the core (form {}), then from_core and byte-level calls {:?}: {} want {} (first diff at byte {:?})", d.ty, k, how, tail, short(&out), short(&want), first_diff(&out, &want));
+                                Ok(())
+                            });
+                        }
+                    }
+                }
                 for ctor in [Ctor::KeyIv, Ctor::Slices, Ctor::InnerSlice] {
                     for d in &cfg.block_modes {
                         let iv = if d.iv_len == bs { iv1.clone() } else { [iv1.clone(), pattern(seed, 0x99, bs)].concat() };
